@@ -147,8 +147,14 @@ func (e *Exec) callFunc(st *State, f *ssa.Function, bindings, args []Value, pos 
 		e.Inlined[key] = true
 		return e.inline(st, f, bindings, args, pos)
 	}
-	e.refuse("unknown external callee %s", key)
-	return nil
+	// Unmodelled external: arbitrary results and arbitrary effects on every
+	// memory location reachable from its arguments (it is assumed not to panic
+	// and not to touch anything else).  Listed in the evidence.
+	e.Externs["UNMODELLED "+key+" (arbitrary result; memory reachable from its arguments arbitrary)"] = true
+	for i, a := range args {
+		e.havocReach(st, a, fmt.Sprintf("unk%d", i), 0, map[*Object]bool{}, pos)
+	}
+	return e.freshResults(f.Signature.Results(), "unk_"+smt.Sanitize(f.Name()))
 }
 
 // inline symbolically executes the callee body in the caller's state.
@@ -326,6 +332,10 @@ func (e *Exec) applyContract(st *State, spec *FuncSpec, sig *types.Signature, pa
 			e.storeLoc(st, gl.loc, nv)
 		}
 	}
+	for _, hv := range spec.Havocs {
+		se := &specEnv{e: e, st: st, old: old, vars: vars, bound: map[string]Value{}, where: "havocs of " + short}
+		e.havocReach(st, se.eval(hv.Expr), smt.Sanitize(short)+"_hv", 0, map[*Object]bool{}, pos)
+	}
 	// results
 	res := sig.Results()
 	var results []Value
@@ -338,8 +348,9 @@ func (e *Exec) applyContract(st *State, spec *FuncSpec, sig *types.Signature, pa
 		st.guard = c.False()
 	}
 	// ghost record
+	var rec *CallRec
 	if spec.Records != "" {
-		rec := &CallRec{Name: spec.Records, Guard: st.guard, Args: args, Results: results, Snap: map[string]Value{}}
+		rec = &CallRec{Name: spec.Records, Guard: st.guard, Args: args, Results: results, Snap: map[string]Value{}, Pre: old, Vars: vars}
 		for i, n := range spec.Params {
 			if i < len(args) {
 				rec.Snap[n] = e.snapshot(old, args[i])
@@ -361,6 +372,9 @@ func (e *Exec) applyContract(st *State, spec *FuncSpec, sig *types.Signature, pa
 		}
 		t := e.evalSpecBool(en, vars, st, old, "ensures of "+short)
 		e.assume(st, t)
+	}
+	if rec != nil {
+		rec.Post = st.clone()
 	}
 	for _, fr := range spec.Fresh {
 		se := &specEnv{e: e, st: st, old: old, vars: vars, bound: map[string]Value{}, where: "fresh of " + short}
@@ -799,4 +813,69 @@ func (e *Exec) tryMacroEquation(st, old *State, en Clause, vars map[string]specV
 	}
 	e.macroEqs = append(e.macroEqs, macroEq{macro: call.Fun, keys: keys, guard: e.C.And(st.guard, g), rhs: rhs, epoch: e.preWrites})
 	return true
+}
+
+// havocReach makes all memory reachable from v arbitrary (pointer structure
+// is kept: pointers and interfaces keep their targets, whose contents are
+// havocked in turn).
+func (e *Exec) havocReach(st *State, v Value, name string, depth int, seen map[*Object]bool, pos token.Pos) {
+	if depth > 6 {
+		return
+	}
+	switch x := v.(type) {
+	case *PtrV:
+		for _, al := range x.Alts {
+			if al.Loc == nil {
+				continue
+			}
+			if len(al.Loc.Path) == 0 {
+				if seen[al.Loc.Obj] {
+					continue
+				}
+				seen[al.Loc.Obj] = true
+			}
+			e.frameCheck(st, al.Loc, al.Cond, "external call may write "+name, pos)
+			old := e.loadLoc(st, al.Loc)
+			nv := e.havocKeepPtrs(st, old, name, depth, seen, pos)
+			if !al.Cond.IsTrue() {
+				nv = e.merge(al.Cond, nv, old)
+			}
+			e.storeLoc(st, al.Loc, nv)
+		}
+	case *IfaceV:
+		for _, al := range x.Alts {
+			if al.Typ != nil {
+				e.havocReach(st, al.Val, name, depth+1, seen, pos)
+			}
+		}
+	case *SliceV:
+		for _, al := range x.Alts {
+			if al.Loc == nil {
+				continue
+			}
+			e.frameCheck(st, al.Loc, al.Cond, "external call may write "+name, pos)
+			old := e.loadLoc(st, al.Loc)
+			e.storeLoc(st, al.Loc, e.havocLike(old, name))
+		}
+	}
+}
+
+// havocKeepPtrs returns a fresh value shaped like old, keeping pointer-like
+// components (and havocking what they point to).
+func (e *Exec) havocKeepPtrs(st *State, old Value, name string, depth int, seen map[*Object]bool, pos token.Pos) Value {
+	switch v := old.(type) {
+	case *StructV:
+		s := &StructV{T: v.T, F: make([]Value, len(v.F))}
+		for i := 0; i < v.T.NumFields(); i++ {
+			s.F[i] = e.havocKeepPtrs(st, v.Field(i), name+"_"+v.T.Field(i).Name(), depth, seen, pos)
+		}
+		return s
+	case *PtrV, *IfaceV:
+		e.havocReach(st, old, name, depth+1, seen, pos)
+		return old
+	case *SliceV:
+		e.havocReach(st, old, name, depth+1, seen, pos)
+		return old
+	}
+	return e.havocLike(old, name)
 }
